@@ -394,6 +394,10 @@ func (u *Unit) checkReturn(f *Frame, rst *State, rets []Val) {
 		}
 		return TV{}, false
 	}
+	var rinfo *ReplayInfo
+	if spec.Opts["replay"] == "true" {
+		rinfo = u.replayInfo(f, rets)
+	}
 	for i, en := range spec.Ensures {
 		t, ok := penv.Bool(en.E, en.Line)
 		if !ok {
@@ -403,7 +407,16 @@ func (u *Unit) checkReturn(f *Frame, rst *State, rets []Val) {
 		if lab == "" {
 			lab = fmt.Sprintf("%d", i+1)
 		}
-		u.addObl(rst, "post", lab, t, en)
+		o := u.addObl(rst, "post", lab, t, en)
+		if rinfo != nil {
+			o.Replay = rinfo
+			for _, v := range rinfo.Inputs {
+				o.Models = append(o.Models, v.Term)
+			}
+			for _, v := range rinfo.Results {
+				o.Models = append(o.Models, v.Term)
+			}
+		}
 	}
 	// frame: a verified unit with a modifies clause must leave every other known class untouched
 	if spec.ModSet && !spec.Assumed {
@@ -496,6 +509,7 @@ func (u *Unit) buildQuery(o *Obligation) string {
 	}
 	// axioms: include those whose spec functions occur (fixpoint)
 	roots := []string{o.PC.S, o.Goal.S}
+	roots = append(roots, o.Models...)
 	body := u.defs.Slice(roots...)
 	var axTexts []string
 	included := map[int]bool{}
@@ -962,4 +976,80 @@ func (eng *Engine) contractFor(name, pkg string) (*UnitSpec, bool) {
 	}
 	s, ok := eng.Contracts[name]
 	return s, ok
+}
+
+// replayInfo collects the input and result terms of a first-order unit (basic-typed parameters, pointers to structs with
+// basic fields, basic results) so that a model of a refuted post-condition can be run against the real function.
+func (u *Unit) replayInfo(f *Frame, rets []Val) *ReplayInfo {
+	fn := u.fn
+	if fn.Pkg == nil {
+		return nil
+	}
+	ri := &ReplayInfo{Func: fn.Name(), Pkg: fn.Pkg.Pkg.Path(), PkgName: fn.Pkg.Pkg.Name(), Complete: true}
+	basicName := func(t types.Type) (string, bool) {
+		if b, ok := t.Underlying().(*types.Basic); ok {
+			switch {
+			case b.Info()&types.IsString != 0, b.Info()&types.IsBoolean != 0, b.Info()&types.IsInteger != 0:
+				return types.TypeString(t, func(p *types.Package) string {
+					if p == fn.Pkg.Pkg {
+						return ""
+					}
+					return p.Name()
+				}), true
+			}
+		}
+		return "", false
+	}
+	for i, p := range fn.Params {
+		isRecv := i == 0 && fn.Signature.Recv() != nil
+		v := f.vals[p]
+		if bn, ok := basicName(p.Type()); ok && !isRecv {
+			ri.Inputs = append(ri.Inputs, ReplayVar{Name: p.Name(), GoType: bn, Term: v.T.S, Sort: string(v.T.Sort)})
+			ri.Params = append(ri.Params, ReplayParam{Name: p.Name(), GoType: bn})
+			continue
+		}
+		pt, ok := p.Type().Underlying().(*types.Pointer)
+		if !ok {
+			return nil
+		}
+		named, ok := pt.Elem().(*types.Named)
+		if !ok {
+			return nil
+		}
+		st, ok := named.Underlying().(*types.Struct)
+		if !ok {
+			return nil
+		}
+		rp := ReplayParam{Name: p.Name(), Struct: named.Obj().Name()}
+		for k := 0; k < st.NumFields(); k++ {
+			fld := st.Field(k)
+			bn, ok := basicName(fld.Type())
+			if !ok {
+				ri.Complete = false
+				continue // left at its zero value in the replay
+			}
+			lv := &LValue{Kind: "field", Class: fieldClass(named, []string{fld.Name()}), Sort: sortOf(fld.Type()), Base: v.T, Owner: named, Path: []string{fld.Name()}, Ty: fld.Type()}
+			fv := u.loadLV(lv, fld.Type(), u.entry)
+			ri.Inputs = append(ri.Inputs, ReplayVar{Name: p.Name() + "." + fld.Name(), GoType: bn, Term: fv.T.S, Sort: string(fv.T.Sort)})
+			rp.Fields = append(rp.Fields, fld.Name())
+		}
+		if isRecv {
+			ri.Recv, ri.RecvPtr, ri.RecvName = named.Obj().Name(), true, p.Name()
+		}
+		ri.Params = append(ri.Params, rp)
+	}
+	res := fn.Signature.Results()
+	for i := 0; i < res.Len() && i < len(rets); i++ {
+		bn, ok := basicName(res.At(i).Type())
+		if !ok {
+			if types.TypeString(res.At(i).Type(), nil) == "error" {
+				// errors are observed as nil / non-nil
+				ri.Results = append(ri.Results, ReplayVar{Name: fmt.Sprintf("ret%d", i), GoType: "error", Term: rets[i].T.S, Sort: string(rets[i].T.Sort)})
+				continue
+			}
+			return nil
+		}
+		ri.Results = append(ri.Results, ReplayVar{Name: fmt.Sprintf("ret%d", i), GoType: bn, Term: rets[i].T.S, Sort: string(rets[i].T.Sort)})
+	}
+	return ri
 }
